@@ -34,7 +34,7 @@ META = dict(
     property="C13",
     level="exploration",
     technique="(a) op-list histories on a ReactorBase with a counting waker (complete small scope + Hypothesis); (b) real select/poll/epoll/asyncio reactors with producer threads under OS scheduling, order-insensitive exactly-once / reactor-thread / per-issuer-order oracle and a logical idle wake-up probe",
-    level_text="Deterministic layer: all histories to depth 5 over an 8-letter alphabet (call shapes positional / keyword / mixed / zero-argument included) plus random histories (<=40 ops, calls that raise and calls that issue calls) against an exactly-once/FIFO-per-issuer/wake-up model. Real layer: every available reactor (select, poll, epoll, asyncio) runs workloads of 1..16 producer threads (quick: ~10^3 calls per run; thorough: 10^4 calls x 5 repetitions) with sys.setswitchinterval(1e-5); the OS schedule is not controlled, so this is exploration under scheduling noise.",
+    level_text="Deterministic layer: all histories to depth 5 over a 9-letter alphabet (call shapes positional / keyword / mixed / zero-argument, and stop() with the shutdown held open by a before-shutdown trigger, included) plus random histories (<=40 ops, calls that raise and calls that issue calls) against an exactly-once/FIFO-per-issuer/wake-up model. Real layer: every available reactor (select, poll, epoll, asyncio) runs workloads of 1..16 producer threads (quick: ~10^3 calls per run; thorough: 10^4 calls x 5 repetitions) with sys.setswitchinterval(1e-5); the OS schedule is not controlled, so this is exploration under scheduling noise.",
     level_note="The real layer cannot choose the interleaving; its oracles are invariants of any interleaving. Loss is declared only after >=4 further reactor iterations (heartbeat timer firings counted in the reactor thread) following two confirmed sentinel round trips. The idle wake-up probe compares, in the reactor's own clock, the moment the probed call runs with the due time of an unrelated 2 s timer and must fail three times in a row; a correct reactor could fail it only if its thread were not scheduled for 2 s three times in succession. The real workload is derived from VERIF_SEED with blake2b (no Hypothesis shrinking for thread runs).",
     design_ref="§5 C13",
     rule="every issued call has a generated shape (positional, keyword, mixed, zero-argument callable) on every reactor and in the deterministic layer; (a) case = op list; non-trivial = >=2 issuers interleaved in the executed order and >=1 call issued from inside a running call; (b) case = (reactor, per-thread lists of (pause, flags, shape)); non-trivial = >=2 producer threads whose calls alternate in the executed order more often than there are threads. Distinct by canonical JSON of the case.",
@@ -77,6 +77,8 @@ def _owned_reactor():
     from twisted.internet.base import ReactorBase
 
     class OwnedReactor(ReactorBase):
+        _registerAsIOThread = False
+
         def installWaker(self):
             self.waker = _CountingWaker()
 
@@ -90,10 +92,20 @@ def run_det(ctx, case):
     """case = {"layer": "det", "ops": [["call", issuer, spec] | ["iterate"]]},
     spec = [raises, [child specs]] — children are issued (by the reactor thread)
     when the call runs."""
+    from twisted.internet.defer import Deferred
     r = _owned_reactor()
     waker = r.waker
     if not isinstance(waker, _CountingWaker):
         raise HarnessError("counting waker not installed")
+    # "While a reactor runs": put it into the running state.  A 'before
+    # shutdown' trigger holds the shutdown open once ["stop"] has been executed,
+    # so the reactor keeps running (reactor.running stays True) until closure.
+    held = Deferred()
+    r.addSystemEventTrigger("before", "shutdown", lambda: held)
+    r.startRunning(installSignalHandlers=False)
+    if not r.running:
+        raise HarnessError("deterministic reactor did not reach the running state")
+    stop_called = [False]
     issued = {}      # issuer -> [ids in issue order]
     executed = []    # (issuer, id)
     runs = {}        # id -> count
@@ -101,9 +113,11 @@ def run_det(ctx, case):
     shapes = {}      # issuer -> set of call shapes used
     sent = {}        # id -> (issuer, id(spec)) as handed to callFromThread
     badargs = []
-    state = dict(drain_mark=waker.n, in_drain=False, nested=0)
+    state = dict(drain_mark=waker.n, in_drain=False, nested=0, during_shutdown=0)
 
     def issue(issuer, spec):
+        if stop_called[0]:
+            state["during_shutdown"] += 1
         i = nextid[0]
         nextid[0] += 1
         issued.setdefault(issuer, []).append(i)
@@ -164,6 +178,10 @@ def run_det(ctx, case):
         if op[0] == "call":
             issue(op[1], op[2])
             check(f"after op {k}")
+        elif op[0] == "stop":
+            if not stop_called[0]:
+                stop_called[0] = True
+                r.stop()
         else:
             niter += 1
             iterate(f"op {k}")
@@ -178,6 +196,15 @@ def run_det(ctx, case):
         iterate("post-closure")
     if any(n != 1 for n in runs.values()):
         ctx.violation("det-not-exactly-once", case, f"{runs}")
+    if not r.running:
+        raise HarnessError("deterministic reactor stopped running although its shutdown is held open")
+    # let the shutdown finish (harness hygiene)
+    if not stop_called[0]:
+        r.stop()
+    r.runUntilCurrent()
+    held.callback(None)
+    if state["during_shutdown"]:
+        ctx.count("det: call issued after stop() while a before-shutdown trigger holds the reactor running")
     switches = sum(1 for a, b in zip(executed, executed[1:]) if a[0] != b[0])
     ctx.count("det: histories")
     if state["nested"]:
@@ -211,7 +238,7 @@ def _det_histories():
         ops = []
         for x in xs:
             if x % 3 == 0:
-                ops.append(["iterate"])
+                ops.append(["stop"] if (x // 3) % 16 == 15 else ["iterate"])
             else:
                 ops.append(["call", (x // 3) % 4, _spec_from_int(x // 12)])
         return dict(layer="det", ops=ops)
@@ -220,6 +247,7 @@ def _det_histories():
 
 _DET_ALPHABET = [
     ["iterate"],
+    ["stop"],
     ["call", 0, [0, [], POS]],
     ["call", 0, [0, [], KW]],
     ["call", 1, [0, [], NOARGS]],
@@ -288,14 +316,17 @@ def run_real(ctx, case):
     kind = case["reactor"]
     plan = case["threads"]           # [[ [pause, flags], ... ], ...]
     do_idle = bool(case.get("idle", True))
+    do_shutdown = bool(case.get("shutdown", False))
+    idle_when = case.get("idle_when", "running")
     r = _make_reactor(kind)
     main_ident = threading.get_ident()
     executed = []                    # (issuer, seq, thread ident); list.append is atomic
     issued = [0] * len(plan)         # per producer: number of calls whose callFromThread returned
     nested_issued = [0]
     S = dict(beats=0, stop=False, hb=None, safety=None, safety_fired=-1,
-             idle_results=[], problems=[], harness=[])
-    ev = dict(started=threading.Event(), armed=threading.Event(), probed=threading.Event())
+             idle_results=[], problems=[], harness=[], held=None)
+    ev = dict(started=threading.Event(), armed=threading.Event(), probed=threading.Event(),
+              shutting=threading.Event())
 
     def fn(issuer, seq, extra):
         flags = extra
@@ -311,7 +342,10 @@ def run_real(ctx, case):
         S["beats"] += 1
         if S["stop"]:
             S["hb"] = None
-            r.stop()
+            if S["held"] is not None:
+                S["held"].callback(None)      # lets the held shutdown finish
+            else:
+                r.stop()
             return
         S["hb"] = r.callLater(HEART, beat)
 
@@ -384,6 +418,37 @@ def run_real(ctx, case):
         executed.append(("P", k, threading.get_ident()))
         ev["probed"].set()
 
+    def begin_shutdown():
+        # reactor thread: stop(), with a 'before shutdown' trigger that keeps
+        # the reactor running until the harness releases it
+        from twisted.internet.defer import Deferred
+        S["held"] = Deferred()
+        r.addSystemEventTrigger("before", "shutdown", lambda: S["held"])
+        r.stop()
+        ev["shutting"].set()
+
+    def idle_round(base):
+        """IDLE_TRIES attempts; returns the list of 'late' verdicts."""
+        res = []
+        for k in range(base, base + IDLE_TRIES):
+            ev["armed"].clear()
+            ev["probed"].clear()
+            r.callFromThread(arm_idle, k)
+            if not ev["armed"].wait(WATCHDOG / 4):
+                S["harness"].append("idle probe could not be armed")
+                break
+            # let the reactor reach its poll and let wake-ups left over from the
+            # cancelled heartbeat pass (sensitivity only, not part of the oracle)
+            time.sleep(HEART + 0.05)
+            r.callFromThread(probe, k)
+            if not ev["probed"].wait(WATCHDOG / 4):
+                S["harness"].append("idle probe never ran")
+                break
+            res.append(S["idle_results"][-1])
+            if not res[-1]:
+                break
+        return res
+
     def coordinator():
         try:
             ev["started"].wait()
@@ -395,24 +460,25 @@ def run_real(ctx, case):
                 t.join()
             ok = sentinel(0) and sentinel(1) and wait_beats(2)
             S["quiesced"] = ok
-            if ok and do_idle:
-                for k in range(IDLE_TRIES):
-                    ev["armed"].clear()
-                    ev["probed"].clear()
-                    r.callFromThread(arm_idle, k)
-                    if not ev["armed"].wait(WATCHDOG / 4):
-                        S["harness"].append("idle probe could not be armed")
-                        break
-                    # let the reactor reach its poll and let wake-ups left over from the
-                    # cancelled heartbeat pass (sensitivity only, not part of the oracle)
-                    time.sleep(HEART + 0.05)
-                    r.callFromThread(probe, k)
-                    if not ev["probed"].wait(WATCHDOG / 4):
-                        S["harness"].append("idle probe never ran")
-                        break
-                    if not S["idle_results"][-1]:
-                        break
+            # One idle-probe round per run, either before or after stop(): a
+            # cancelled safety timer of an earlier round would still wake the
+            # reactor once and could hide a missing wake-up in a later round.
+            if ok and do_idle and idle_when == "running":
+                S["idle_running"] = idle_round(0)
                 wait_beats(1)
+            if ok and do_shutdown and not S["harness"]:
+                # the reactor is still running while its shutdown is held open:
+                # the same guarantees apply
+                r.callFromThread(begin_shutdown)
+                if not ev["shutting"].wait(WATCHDOG / 4):
+                    S["harness"].append("held shutdown could not be started")
+                else:
+                    wait_beats(1)
+                    if not r.running:
+                        S["harness"].append("reactor not running during held shutdown")
+                    elif sentinel(2) and do_idle and idle_when == "shutdown":
+                        S["idle_shutdown"] = idle_round(100)
+                        wait_beats(1)
         except BaseException as e:
             S["problems"].append(("coordinator-raised", f"{type(e).__name__}: {e}"))
         finally:
@@ -482,12 +548,17 @@ def run_real(ctx, case):
         ctx.violation("real-nested-call-not-once", case, f"{kind}: issued {nested_issued[0]}, ran {len(gotR)}")
     if gotR != sorted(gotR):
         ctx.violation("real-per-thread-order", case, f"{kind}: calls issued by the reactor thread ran out of order")
-    if do_idle and S.get("quiesced"):
-        res = S["idle_results"]
+    for key, sig, what in (("idle_running", "real-idle-call-waited-for-unrelated-timer", "the reactor idled"),
+                           ("idle_shutdown", "real-idle-call-during-held-shutdown-waited-for-unrelated-timer",
+                            "the reactor idled after stop() with its shutdown held open by a before-shutdown trigger")):
+        res = S.get(key)
+        if res is None:
+            continue
         if len(res) == IDLE_TRIES and all(res):
-            ctx.violation("real-idle-call-waited-for-unrelated-timer", case,
-                          f"{kind}: in {IDLE_TRIES} attempts a call issued while the reactor idled ran only once the unrelated {SAFETY}s timer was due")
-        ctx.count(f"real: idle probes late={sum(res)}/{len(res)}", 1)
+            ctx.violation(sig, case,
+                          f"{kind}: in {IDLE_TRIES} attempts a call issued while {what} ran only once the unrelated {SAFETY}s timer was due")
+        ctx.count(f"real: {key} probes", len(res))
+        ctx.count(f"real: {key} probes late", sum(res))
     # ---- bookkeeping ------------------------------------------------------
     order = [who for who, _, _ in executed if isinstance(who, int)]
     switches = sum(1 for a, b in zip(order, order[1:]) if a != b)
@@ -535,7 +606,8 @@ def _workload(seed, kind, idx, nthreads, ncalls):
             shape = POS if b2 & 1 else (KW, KW, MIXED, NOARGS)[(b2 >> 1) & 3]
             calls.append([pause, flags, shape])
         out.append(calls)
-    return dict(layer="real", reactor=kind, threads=out, idle=True)
+    return dict(layer="real", reactor=kind, threads=out, idle=True, shutdown=True,
+                idle_when="running" if idx % 10 == 0 else "shutdown")
 
 
 REACTORS = ["select", "poll", "epoll", "asyncio"]
